@@ -1,4 +1,4 @@
-use std::io;
+use std::{io, iter};
 
 use super::{LOWER_BOUND, state_renormalize, state_step, write_alphabet, write_states};
 use crate::{codecs::rans_nx16::ALPHABET_SIZE, io::writer::num::write_uint7};
@@ -105,7 +105,16 @@ pub(super) fn normalize_frequencies(frequencies: &Frequencies) -> Frequencies {
     if normalized_sum < SCALING_FACTOR {
         normalized_frequencies[max_index] += SCALING_FACTOR - normalized_sum;
     } else if normalized_sum > SCALING_FACTOR {
-        normalized_frequencies[max_index] -= normalized_sum - SCALING_FACTOR;
+        // Take the excess from the most frequent symbol first and, if that is not enough, from
+        // the other symbols, never lowering the frequency of a symbol that occurs below 1.
+        let mut excess = normalized_sum - SCALING_FACTOR;
+
+        for i in iter::once(max_index).chain(0..ALPHABET_SIZE) {
+            let g = &mut normalized_frequencies[i];
+            let n = excess.min(g.saturating_sub(1));
+            *g -= n;
+            excess -= n;
+        }
     }
 
     normalized_frequencies
